@@ -36,6 +36,9 @@ FILES = {
     "e.c": '#include "once.h"\n#ifdef X\nint ex;\n#endif\n#define STR(x) #x\n#define XSTR(x) STR(x)\n#include XSTR(P)\nint e;\n',
     "f.cu": "int f;\n#if defined(__CUDA_ARCH__) && __CUDA_ARCH__ >= 800\nint amp;\n#endif\n#ifdef __CUDACC__\nint cc;\n#endif\n#ifdef X\nint fx;\n#endif\n",
     "never.c": "int never;\n",
+    "lvl.h": "#define LEVEL BASE\n#if LEVEL > 1\nint hi;\n#else\nint lo;\n#endif\n#if defined(BASE) && BASE == 1\nint one;\n#endif\n",
+    "g.c": '#include "lvl.h"\nint g;\n',
+    "g2.c": '#include "lvl.h"\nint g2;\n',
 }
 COMMANDS = [
     ("a.c", "/usr/bin/gcc", []),
@@ -48,6 +51,8 @@ COMMANDS = [
     ("b.c", "/usr/bin/gcc", ["-DFROM_A"]),
     ("f.cu", "nvcc", ["--gpu-architecture=sm_80"]),
     ("f.cu", "nvcc", ["-DX"]),
+    ("g.c", "/usr/bin/gcc", ["-DBASE=2"]),
+    ("g2.c", "/usr/bin/gcc", ["-DBASE=1"]),
 ]
 
 _entries = {}
